@@ -6,7 +6,7 @@
    Refuted on the faithful model (recorded defects): dotted attribute spelling, scope of attribute
    modifications. *)
 From Coq Require Import List ZArith Bool PArith.
-From PV Require Import Lib.ClassTree Model.C07_flatten Model.C08_modify Proofs.C08_modify.
+From PV Require Import Lib.ClassTree Lib.Inst Model.C07_flatten Model.C08_modify Proofs.C08_modify.
 Import ListNotations.
 
 (* modify_symbol applies `inner ++ outer` by setattr in list order, where `inner` are the arguments of
@@ -44,6 +44,22 @@ Theorem C08_spelling_partial (sc : option path) (n m : ident) (rest : path) (ms 
   shift_arg (nest (MArg sc (n :: m :: rest) ms)) = Err IndexErr.
 Proof. exact (conj (dotted_accepted sc n m rest ms) (nest_rejected sc n m rest ms)). Qed.
 Print Assumptions C08_spelling_partial.
+
+(* the SPECIFICATION (Lib/Inst.v) is spelling independent — the dotted argument a.rest(ms) and its nested
+   spelling a(rest(ms)) give the same modifier entries, for every argument — and outermost wins in it: in
+   outer ++ inner the entry of the outer source is taken whenever there is one.  The refinement
+   `flatten = inst` WITH modifications (C08_refines) is not proved; missing lemma: apply_args_leaf (see
+   Props/C07.v, C07_refines_partial); the comparison real flat model vs `inst` is made on every run
+   (check_spec) on the libraries outside the recorded defect shapes. *)
+Theorem C08_spec_spelling (env : option path) (a : marg) : flat_arg env (nest a) = flat_arg env a.
+Proof. exact (spec_spelling env a). Qed.
+Print Assumptions C08_spec_spelling.
+
+Theorem C08_spec_outermost (a : ident) (outer inner : list mentry) :
+  attr_lookup a (outer ++ inner) =
+  match attr_lookup a outer with Some x => Some x | None => attr_lookup a inner end.
+Proof. exact (spec_outermost a outer inner). Qed.
+Print Assumptions C08_spec_outermost.
 
 (* recorded defect: model C Real x; end C; model B C c; end B; model M B b(<m>); end M;
    <m> = c.x(start = 3) sets start;  <m> = c.x.start = 3 becomes the equation b.c.x = 3 and leaves start
